@@ -77,6 +77,8 @@ def esd(jday):
 
 
 def run(res, tier, seed):
+    import l1b as _l1b
+    _l1b.AUTO_NOISE = 7919 * seed + 13      # random bytes in every record field the spec writer does not set
     rng = common.rng_for(seed, PROP)
     from importlib.resources import files
     from pygac.calibration.noaa import Calibrator, calibrate_solar
